@@ -135,6 +135,14 @@ def psi_tables(ctx):
     for w in local_writes(f, "pressure_line_index"):
         case = [p[5:] for k, p in fl.guards(w) if isinstance(p, str) and p.startswith("case:")]
         lines[case[0] if case else "?"] = f.text(write_rhs(f, w))
+    if not lines:
+        # single-expression spelling: pressure_line_index = (type == FULL) ? 1 : 0
+        init_, v_ = local_init(f, "pressure_line_index", must=False)
+        t_ = f.text(init_) if v_ is not None and init_ is not None and init_ >= 0 else ""
+        if re.match(r"^\(\(type == Oomd::Fs::PressureType::FULL\) \? 1 : 0\)$", t_) or re.match(r"^\(\(type == Oomd::Fs::PressureType::SOME\) \? 0 : 1\)$", t_):
+            lines = {"SOME": "0", "FULL": "1"}
+        else:
+            lines = {"?": t_}
     ctx.check(lines == {"SOME": "0", "FULL": "1"}, "psi:line-of-type", "switch_table", f.loc(), "'some' is the first line, 'full' the second", "line selection is %s" % lines)
     KEYS = ["avg10", "avg60", "avg300", "total"]
     n = 0
@@ -184,7 +192,8 @@ def psi_tables(ctx):
                       "tokens 1-3 fill sec_10/sec_60/sec_300, no total", "fields are %s" % els)
             toks_init = [X(v_["init"]) for d_ in f.all("decl") for v_ in f.nodes[d_].get("vars", []) if v_["name"] == "toks" and "init" in v_ and f.pos_of(d_) is not None and
                          any(isinstance(p, str) and p == "case:EXPERIMENTAL" for k, p in fl.guards(d_))]
-            ctx.check(toks_init and all("(var:pressure_line_index + 1)" in t or "pressure_line_index + 1" in t for t in toks_init), "psi:experimental-skips-aggr-line", "value-shape", f.loc(r),
+            ctx.check(toks_init and all("(var:pressure_line_index + 1)" in t or "pressure_line_index + 1" in t or
+                                        re.search(r"\[\(\(\(param:type == Oomd::Fs::PressureType::FULL\) \? 1 : 0\) \+ 1\)\]", t) for t in toks_init), "psi:experimental-skips-aggr-line", "value-shape", f.loc(r),
                       "the experimental format has one leading 'aggr' line", "experimental line index is %s" % toks_init)
     ctx.counters["psi_value_returns"] = n
     ctx.floor("psi_value_returns", 2, "value returns of readRespressureFromLines (upstream, experimental)")
@@ -347,10 +356,21 @@ def run(ctx):
         "getIoCostRate": r"^\(!this->archive_\.io_cost_cumulative(\.operator bool\(\))? \? 0(\.0)? : \(\*this->io_cost_cumulative\(nullptr\) - \*this->archive_\.io_cost_cumulative\)\)$",
         "getPgScanRate": r"^\(\*this->pg_scan_cumulative\(nullptr\) - \*this->archive_\.pg_scan_cumulative\)$",
     }
+    DIFF = {"getIoCostRate": r"^\(\*this->io_cost_cumulative\(nullptr\) - \*this->archive_\.io_cost_cumulative\)$",
+            "getPgScanRate": shapes["getPgScanRate"]}
     for nm, rx in shapes.items():
         f = ctx.fn1("Oomd::CgroupContext::" + nm)
         last = [ret_text(f, r) for r in returns(f) if "archive_" in ret_text(f, r)]
-        ctx.check(len(last) == 1 and re.match(rx, last[0]) is not None, "temporal:" + nm, "value-shape", f.loc(), nm + " = current cumulative - archived cumulative", nm + " returns " + str(last))
+        ok_ = len(last) == 1 and re.match(rx, last[0]) is not None
+        if not ok_ and len(last) == 1 and re.match(DIFF[nm], last[0]) is not None and nm == "getIoCostRate":
+            # if/return spelling of the same table: the difference where an archived value exists, 0 where it does not
+            ft_ = Flow(P, f, cg=cg)
+            fld = "this->archive_.io_cost_cumulative"
+            r_diff = [r for r in returns(f) if "archive_" in ret_text(f, r)][0]
+            zero = [r for r in returns(f) if ret_text(f, r) in ("0", "0.0", "std::optional(0.0)", "std::optional(0)")]
+            has = lambda g_, pol: any(p is pol and k in (fld, fld + ".has_value()", fld + ".operator bool()") for k, p in g_)
+            ok_ = has(ft_.guards(r_diff), True) and len(zero) == 1 and has(ft_.guards(zero[0]), False)
+        ctx.check(ok_, "temporal:" + nm, "value-shape", f.loc(), nm + " = current cumulative - archived cumulative", nm + " returns " + str(last))
     ga = ctx.fn1("Oomd::CgroupContext::getAverageUsage")
     txt = " ".join(ret_text(ga, r) for r in returns(ga))
     X = Expander(P, ga)
@@ -430,20 +450,10 @@ def run(ctx):
     ctx.check("max" in lits, "max-grammar-parser", "value-shape", mm.loc(), "the shared parser recognises the literal 'max'", "shared parser has no 'max' case")
     readdir_does_not_follow_links(ctx, "C15")
     # readDirFromDIR sibling agreement (shared with C10)
-    rd = ctx.fn1("Oomd::Fs::readDirFromDIR")
-    fl = Flow(P, rd, cg=cg)
-    for i in rd.calls("push_back", "emplace_back"):
-        g = fl.guards(i)
-        tgt = rd.text(rd.nodes[i]["recv"])
-        for flag, want in (("DE_DIR", "de.dirs"), ("DE_FILE", "de.files")):
-            if any(p is True and flag in k for k, p in g):
-                ctx.count("readdir_pushes")
-                ctx.check(tgt == want, "readdir-classification:%s:%s" % (flag, "fast" if any("d_type" in k for k, p in g) else "fallback"), "sibling_agreement", rd.loc(i),
-                          "%s entries go to %s" % (flag, want), "%s entries are pushed to %s" % (flag, tgt))
-    ctx.floor("readdir_pushes", 4, "push sites in readDirFromDIR")
+    readdir_classification(ctx, "C15")
     # children come from the held fd
     gc = ctx.fn1("Oomd::CgroupContext::getChildren")
     Xg = Expander(P, gc)
     t = " ".join(Xg(gc.nodes[r]["val"]) for r in returns(gc) if "val" in gc.nodes[r])
-    ctx.check("Oomd::Fs::readDirAt(this->fd(), " in t and ".dirs" in t.replace("->->", "->").replace("->", "."), "children-from-held-fd", "provenance", gc.loc(), "children are the directories listed through the held fd",
+    ctx.check(("Oomd::Fs::readDirAt(this->fd(), " in t or "Oomd::Fs::readDirAt(this->cgroup_dir_, " in t) and ".dirs" in t.replace("->->", "->").replace("->", "."), "children-from-held-fd", "provenance", gc.loc(), "children are the directories listed through the held fd",
               "children are " + t[:120])
